@@ -95,6 +95,10 @@ def parse_op(text):
         return {"kind": "batch", "scenes": scenes}
     if kind == "skip":
         return {"kind": "skip", "scene": int(kv["scene"]), "n": int(kv["n"])}
+    if kind == "skip0":
+        # the scene-less TrackerAPI::skip_epochs(n): documented to act on scene 0 - for the model, the ledger and the
+        # projections it IS `skip scene=0 n`; only the harness calls the other entry point
+        return {"kind": "skip", "scene": 0, "n": int(kv["n"]), "sceneless": True}
     if kind in ("idle", "epoch"):
         return {"kind": kind, "scene": int(kv["scene"])}
     if kind == "setaw":
@@ -111,6 +115,8 @@ def op_text(op):
     if k == "batch":
         return "batch scenes=%s" % "|".join("%d@%s" % (s, ";".join(det_text(d) for d in ds)) for s, ds in op["scenes"])
     if k == "skip":
+        if op.get("sceneless"):
+            return "skip0 n=%d" % op["n"]
         return "skip scene=%d n=%d" % (op["scene"], op["n"])
     if k in ("idle", "epoch"):
         return "%s scene=%d" % (k, op["scene"])
@@ -1422,6 +1428,60 @@ def gap_family(seed):
     return out
 
 
+def drift_family(seed):
+    """C20, tracker level: ONE slowly drifting object tracked for many more frames than the kept box history, with a
+    constraints table whose limit the per-frame displacement never comes near.  Such a table is non-binding BY
+    CONSTRUCTION (see drift_nonbinding), so the run must equal the run without constraints."""
+    one = f32_bits(1.0)
+    out = []
+    k = 0
+    for tracker in ("sort", "batch"):
+        for hist in (2, 3, 4):
+            for frames in (14, 18):
+                for lim in (0.4, 0.5):
+                    for metric in (("iou", f32_bits(0.3)), ("maha", None)):
+                        hgt = [40.0, 60.0][k % 2]
+                        step = 3.0 * hgt / 40.0              # ~0.053 of the radius sum per frame
+                        scene = (k + seed) % 3
+                        x0 = 80.0 + 4.0 * ((k + seed) % 7)
+                        ops = []
+                        for fidx in range(frames):
+                            d = {"uid": fidx + 1, "xc": f32_bits(x0 + step * fidx), "yc": f32_bits(150.0), "angle": None,
+                                 "aspect": one, "height": f32_bits(hgt), "conf": one, "custom": fidx + 1}
+                            ops.append({"kind": "predict", "scene": scene, "dets": [d]})
+                        h = {"k": 300000 + k, "tracker": tracker, "shards": 1 + k % 3, "vshards": 1 + k % 2, "history": hist,
+                             "max_idle": 2, "metric": metric, "minconf": f32_bits(0.05),
+                             "constraints": [[(1, f32_bits(lim)), (3, f32_bits(lim))]], "ops": ops, "vopts": []}
+                        out.append(h)
+                        k += 1
+    return out
+
+
+def drift_nonbinding(h):
+    """by construction: every call submits one box; consecutive boxes of the scene are displaced by less than a fifth of
+    every configured limit (in units of the sum of the bounding radii), so no admissible pair can reach a limit"""
+    import math
+    if not h["constraints"]:
+        return False
+    lim = min(f32_bits_to_fraction(b) for call in h["constraints"] for _, b in call)
+    prev = None
+    for o in h["ops"]:
+        if o["kind"] != "predict" or len(o["dets"]) != 1:
+            return False
+        d = o["dets"][0]
+        x, y = float(f32_bits_to_fraction(d["xc"])), float(f32_bits_to_fraction(d["yc"]))
+        hg, asp = float(f32_bits_to_fraction(d["height"])), float(f32_bits_to_fraction(d["aspect"]))
+        rad = math.hypot(asp * hg / 2.0, hg / 2.0)
+        if prev is not None:
+            if prev[3] != o["scene"]:
+                return False
+            dist = math.hypot(x - prev[0], y - prev[1]) / (rad + prev[2])
+            if dist * 5.0 >= float(lim):
+                return False
+        prev = (x, y, rad, o["scene"])
+    return True
+
+
 def c20t_run(chk, pid="C20T", max_hist=200):
     """proof stage for Props/C20T.v + the two tracker-level oracles on the implementation:
     (a) a table that no considered pair violates is a no-op (run with the table == run without),
@@ -1508,8 +1568,45 @@ def c20t_run(chk, pid="C20T", max_hist=200):
         msg = "a tracker with a constraints table that no considered pair violates behaves differently from one without constraints"
         chk.violation("C20:" + key, msg, replay_obj(small, msg, {"pair": {"kind": "noconstraints"}, "original_history": k, "seed": chk.seed}))
         found = True
+    # constructed family: long slow drift, table non-binding by construction -> must equal the unconstrained run
+    dh = [h for h in drift_family(chk.seed) if drift_nonbinding(h)]
+    dr = run_impl([x for h in dh for x in (h, without_constraints(h))])
+    drift_stats = Counter()
+    dfail = {}
+    for j, h in enumerate(dh):
+        ra, rb = dr[2 * j], dr[2 * j + 1]
+        if ra is None or rb is None:
+            continue
+        drift_stats[h["tracker"]] += 1
+        ex = exact_ids(h)
+        if observable(h, ra, ex) != observable(without_constraints(h), rb, ex):
+            dfail.setdefault("tracker-nonbinding-drift:" + h["tracker"], h)
+    for key, h in dfail.items():
+        def f(hh):
+            if not drift_nonbinding(hh):
+                return False
+            bb = without_constraints(hh)
+            ra, rb = run_impl([hh, bb])
+            if ra is None or rb is None:
+                return False
+            ex = exact_ids(hh)
+            return observable(hh, ra, ex) != observable(bb, rb, ex)
+        small = shrink_history(h, f) if f(h) else h
+        bb = without_constraints(small)
+        ra, rb = run_impl([small, bb])
+        oa, ob = observable(small, ra, exact_ids(small)), observable(bb, rb, exact_ids(small))
+        i = next((j for j, (x, y) in enumerate(zip(oa, ob)) if x != y), 0)
+        msg = ("one object drifting by < 1/5 of the configured limit per frame (history %d, %d frames): with the constraints table "
+               "op %d gives %s, without any table %s - a table that no pair violates must behave like none"
+               % (small["history"], len(small["ops"]), i, str(oa[i])[:160] if i < len(oa) else "-", str(ob[i])[:160] if i < len(ob) else "-"))
+        chk.violation("C20:" + key, msg, replay_obj(small, msg, {"pair": {"kind": "noconstraints"}, "original_history": h["k"], "seed": chk.seed}))
+        nfail[key] = (h["k"], h)
+        found = True
     chk.coverage["tracker_level"] = {"histories_with_binding_pairs": nb_hist, "binding_pairs": binding_pairs,
                                      "nonbinding_run_pairs_compared": compared,
+                                     "drift_family": dict(drift_stats, histories=len(dh),
+                                                          rule="one object drifting ~0.05 of the radius sum per frame for 14-18 frames, kept history 2-4, "
+                                                               "limit 0.4-0.5 for every gap: non-binding by construction, run with table == run without"),
                                      "gap_family": dict(gap_stats, histories=len(gh),
                                                         rule="object away for 1-2 empty frames (skip for the batch API), re-appears with "
                                                              "dist_in_2r between the limits of gap 1 and gap 3; both table orders; all four trackers"),
@@ -1773,3 +1870,23 @@ def visual_report(chk, pid, data, found):
                                               "implementation_output": [(s["optext"][:80], s["res"]) for s in r["steps"][:i + 1]][-3:]}))
         found = True
     return found
+
+
+
+def with_sceneless_skips(h, seed):
+    """variant of a history with two scene-less skip_epochs(n) calls inserted after predicts (C04: a scene-0 maintenance
+    call must not change what other scenes report)"""
+    idx = [i for i, o in enumerate(h["ops"]) if o["kind"] in ("predict", "batch")]
+    if len(idx) < 3:
+        return None
+    x = (h["k"] * 2654435761 + seed * 97) & 0xFFFFFFFF
+    a = idx[1 + x % max(1, len(idx) // 2)]
+    b = idx[min(len(idx) - 2, len(idx) // 2 + (x >> 8) % max(1, len(idx) // 2))]
+    ops = []
+    for i, o in enumerate(h["ops"]):
+        ops.append(dict(o))
+        if i == a:
+            ops.append({"kind": "skip", "scene": 0, "n": 1 + (x >> 4) % 3, "sceneless": True})
+        if i == b and b != a:
+            ops.append({"kind": "skip", "scene": 0, "n": 1 + (x >> 12) % 2, "sceneless": True})
+    return clone(h, ops=ops)
